@@ -158,8 +158,8 @@ class LSWriter(impl.FakeWriter):
 
 
 class LSControl(impl.LocalControl):
-    def __init__(self, env):
-        super().__init__(server_id=3)
+    def __init__(self, env, server_id=3):
+        super().__init__(server_id=server_id)
         self.env = env
 
     async def remove(self, connection_id):
@@ -263,7 +263,8 @@ class Driver:
         self.env = impl.Env(own_sleep=True)
         self.env.box = {}
         self.box = {"script": []}
-        self.ctl = LSControl(self.env)
+        # the configured server id, 0 included (the first connection of instance 0 has the id 0)
+        self.ctl = LSControl(self.env, server_id=rng.choice([3, 0, 0, 1, 65535]))
         self.provider = ScriptProvider(self.env, self.box)
         self.session = None
 
